@@ -100,10 +100,48 @@ def check_valid(pc, formula, want_model=True, timeout_ms=None, second_backend=Tr
     s.add(*fs)
     s.add(*ax)
     r = s.check()
-    if r == z3.unsat:
-        return 'proved', 'z3', time.time() - t0, None, s
-    if r == z3.sat:
-        return 'failed', 'z3', time.time() - t0, (s.model() if want_model else None), s
+    # counter-model refinement: a model may violate homomorphism axioms that were not instantiated because
+    # the argument is a variable; unfold them on the model's value of the argument and re-solve
+    rounds = 0
+    seen_lemmas = set()
+    last_model = None
+    while r == z3.sat and rounds < 8:
+        m = s.model()
+        last_model = m
+        apps = []
+        seen = set()
+        for f in fs + ax:
+            sym._walk(f, seen, apps)
+        lemmas = []
+        for sf, app in apps:
+            arg = app.arg(app.num_args() - 1)
+            k = arg.decl().kind()
+            if k in (z3.Z3_OP_SEQ_EMPTY, z3.Z3_OP_SEQ_UNIT, z3.Z3_OP_SEQ_CONCAT):
+                continue
+            try:
+                val = m.eval(arg, model_completion=True)
+            except z3.Z3Exception:
+                continue
+            key = (app.get_id(), val.get_id())
+            if key in seen_lemmas:
+                continue
+            seen_lemmas.add(key)
+            extra = [app.arg(i) for i in range(sf.nextra)]
+            conc = sf.f(*(extra + [val]))
+            lem = [z3.Implies(arg == val, app == conc)]
+            lemmas.extend(lem)
+        if not lemmas:
+            break
+        more = sym.instantiate_axioms(lemmas)
+        more += sym.structural_axioms(lemmas + more)
+        s.add(*lemmas)
+        s.add(*more)
+        ax = ax + lemmas + more
+        rounds += 1
+        r = s.check()
+    if r == z3.unknown and last_model is not None:
+        # refinement made the query too hard: report the last (possibly axiom-violating) model; the replay decides
+        return 'failed', 'z3', time.time() - t0, (last_model if want_model else None), s
     if second_backend:
         try:
             smt = s.to_smt2().replace('(check-sat)', '')
